@@ -245,7 +245,7 @@ func c13ab(c *Ctx) {
 	scan("lang/expressions", true)
 	scan("lang/expressions/primitives", true)
 	c.MinCount("R13a", "strconv.FormatFloat calls", nFF, 1)
-	c.MinCount("R13b", "number<->string conversion sites", nConv, 9)
+	c.MinCount("R13b", "number<->string conversion sites", nConv, 6)
 }
 
 // ---------------------------------------------------------------- R13c
